@@ -23,6 +23,8 @@ TEXT = {
             "seeded search over schedules and call histories; a clean batch is evidence, not proof"),
     "C19": ("exploration", "deterministic simulation of node chains (HTTP over SimNet, gRPC interceptors with a metadata hop) with simulated clock and entropy, interleaved by the gated scheduler; history oracle per hop",
             "seeded search over option combinations, inbound values, chain shapes and interleavings"),
+    "C09": ("fault_enumeration", "deterministic simulation of generator invocation histories over one directory with disk-fault injection: crash points enumerated over a stated quotient of FaultFS operations, map order / clock / process perturbation per step; oracle: output equals the clean generation of the current design",
+            "exhaustive only for the crash-point quotient; designs, histories and map orders are seeded search"),
     "C20": ("exploration", "deterministic simulation: concurrent clients against one mounted server / shared helpers under the seeded gated scheduler, race detector with TSan-blind gates, per-request echo oracle",
             "seeded search over interleavings at transport and synchronisation points; races between points are the detector's"),
 }
@@ -63,9 +65,9 @@ def main():
             "add_only": True,
         },
         "engines": [
-            {"name": "rt", "path": "sim/engines/rt", "serves_properties": sorted(p for p in claimed if orch.PROPS[p]["engine"] == "rt"),
+            {"name": "rt", "path": "sim/engines/rt", "serves_properties": sorted(p for p in claimed if orch.PROPS[p]["engine"] in ("rt", "rtgen")),
              "kind_free_text": "goa runtime packages under the gated scheduler, SimNet, SimClock, SimRand, race detector"},
-            {"name": "gen", "path": "sim/engines/gen", "serves_properties": sorted(p for p in claimed if orch.PROPS[p]["engine"] == "gen"),
+            {"name": "gen", "path": "sim/engines/gen", "serves_properties": sorted(p for p in claimed if orch.PROPS[p]["engine"] in ("gen", "rtgen")),
              "kind_free_text": "generated client <-> SimNet <-> generated server per seeded design, reference model from the design spec"},
             {"name": "dir", "path": "sim/engines/dir", "serves_properties": sorted(p for p in claimed if orch.PROPS[p]["engine"] == "dir"),
              "kind_free_text": "real goa CLI and generator processes over FaultFS and MapOrder on one output directory"},
